@@ -223,6 +223,25 @@ class C17(Prop):
                            ('cagr', a['cagr'], js['cagr']), ('max drawdown vs performance', a['maxdd'], js['maxdd'])):
             if not ok(x, y, 1e-12):
                 F.append('tearsheet / JSON / performance disagree on %s: %s vs %s' % (name, x, y))
+        pn = a.get('panel')
+        if pn and 'err' in pn:
+            F.append('the tearsheet text panel could not be rendered: %s' % pn['err'])
+        elif pn:
+            def fmt(kind, x):
+                x = fr(x)
+                if x is None:
+                    return None
+                x = float(x)
+                return {'total': '{:.0%}', 'cagr': '{:.2%}', 'sharpe': '{:.2f}', 'sortino': '{:.2f}', 'maxdd': '{:.2%}', 'duration': '{:.0f}'}[kind].format(x)
+            for col, src, tot in (('s', js, a.get('json_total')), ('b', a.get('json_bench_alone'), a.get('bench_total'))):
+                if not src:
+                    continue
+                for kind, val in (('total', tot), ('cagr', src['cagr']), ('sharpe', src['sharpe']), ('sortino', src['sortino']),
+                                  ('maxdd', src['maxdd']), ('duration', src['duration'])):
+                    want = fmt(kind, val)
+                    if want is not None and 'nan' not in want and 'inf' not in want and pn[col].get(kind) != want:
+                        F.append('tearsheet text panel, %s column: %s shown as %s, the JSON export of that curve says %s' % (
+                            'strategy' if col == 's' else 'benchmark', kind, pn[col].get(kind), want))
         jb, ja = a.get('json_bench'), a.get('json_bench_alone')
         if jb and ja:
             for name in ('n', 'sharpe', 'sortino', 'cagr', 'maxdd', 'duration', 'ann_vol'):
